@@ -67,23 +67,24 @@ type hangRec struct {
 }
 
 type sumRec struct {
-	Evals       int64            `json:"evals"`
-	Classes     map[string]int64 `json:"classes"`
-	Skipped     map[string]int64 `json:"skipped"`
-	Tags        map[string]int64 `json:"tags,omitempty"` // coverage cells declared by generated cases that ran
-	Sessions    int64            `json:"sessions,omitempty"`
-	BOM         map[string]int64 `json:"bom"`     // inputs starting with a UTF-8/UTF-16 byte order mark, by mark and length parity
-	Hashes      string           `json:"hashes"`  // 8-byte prefixes of sha256(target‖input)
-	Repeats     map[string]int64 `json:"repeats"` // violation key -> further inputs with the same key
-	ScryptCalls int64            `json:"scrypt_calls"`
-	SlowestUS   int64            `json:"slowest_us"`
-	SlowestIdx  int              `json:"slowest_idx"`
-	MaxLen      int              `json:"max_len"`
-	SampleIdx   int              `json:"sample_idx"`
-	SampleIn    string           `json:"sample_input"`
-	SampleClass string           `json:"sample_class"`
-	VmLimitKB   uint64           `json:"vm_limit_kb"`
-	LimitErr    string           `json:"limit_err,omitempty"`
+	Evals       int64              `json:"evals"`
+	Classes     map[string]int64   `json:"classes"`
+	Skipped     map[string]int64   `json:"skipped"`
+	Tags        map[string]int64   `json:"tags,omitempty"` // coverage cells declared by generated cases that ran
+	Sessions    int64              `json:"sessions,omitempty"`
+	Ratios      map[string]float64 `json:"ratios,omitempty"`
+	BOM         map[string]int64   `json:"bom"`     // inputs starting with a UTF-8/UTF-16 byte order mark, by mark and length parity
+	Hashes      string             `json:"hashes"`  // 8-byte prefixes of sha256(target‖input)
+	Repeats     map[string]int64   `json:"repeats"` // violation key -> further inputs with the same key
+	ScryptCalls int64              `json:"scrypt_calls"`
+	SlowestUS   int64              `json:"slowest_us"`
+	SlowestIdx  int                `json:"slowest_idx"`
+	MaxLen      int                `json:"max_len"`
+	SampleIdx   int                `json:"sample_idx"`
+	SampleIn    string             `json:"sample_input"`
+	SampleClass string             `json:"sample_class"`
+	VmLimitKB   uint64             `json:"vm_limit_kb"`
+	LimitErr    string             `json:"limit_err,omitempty"`
 }
 
 type outRec struct {
@@ -124,6 +125,8 @@ func (j *job) input(t *target, i int) []byte {
 		return encInput(t, i)
 	case "plug":
 		return plugFamily()[i].encode()
+	case "scale":
+		return scaleInput(i)
 	case "files":
 		b, err := os.ReadFile(j.Files[i])
 		if err != nil {
@@ -396,6 +399,12 @@ func childMain(spec string) {
 				}
 				sum.ScryptCalls += int64(o.scrypt)
 				sum.Sessions += int64(o.sessions)
+				if o.ratio > 0 && len(o.tags) == 1 {
+					if sum.Ratios == nil {
+						sum.Ratios = map[string]float64{}
+					}
+					sum.Ratios[o.tags[0]] = float64(int(o.ratio*100)) / 100
+				}
 				for _, tg := range o.tags {
 					if sum.Tags == nil {
 						sum.Tags = map[string]int64{}
